@@ -7,6 +7,13 @@
 
 namespace vu
 {
+   // if_then chains written out as a user would write them; what each chain means (nested if_then_else in the order written) is stated in
+   // sa/equiv.py CHAIN_SPECS - the internal type the aliases produce is NOT the reference (an alias that files a pair at the wrong place would be its own oracle)
+   struct chain3 : tao::pegtl::if_then< P1, P2 >::else_if_then< P3, P4 >::else_if_then< P5, P6 > {};
+   struct chain3e : tao::pegtl::if_then< P1, P2 >::else_if_then< P3, P4 >::else_if_then< P5, P6 >::else_then< P< 7 > > {};
+   struct chain2e : tao::pegtl::if_then< P1, P2 >::else_if_then< P3, P4 >::else_then< P5 > {};
+   struct chain4 : tao::pegtl::if_then< P1, P2 >::else_if_then< P3, P4 >::else_if_then< P5, P6 >::else_if_then< P< 7 >, P< 8 > > {};
+
    template< typename R >
    bool e2( In& in )
    {
@@ -154,6 +161,10 @@ namespace vu
       r = e2< tao::pegtl::if_then< P1, P2 > >( in ) && r;
       r = e2< tao::pegtl::if_then< P1, P2 >::else_if_then< P3, P4 > >( in ) && r;
       r = e2< tao::pegtl::if_then< P1, P2 >::else_then< P3 > >( in ) && r;
+      r = e2< chain3 >( in ) && r;
+      r = e2< chain3e >( in ) && r;
+      r = e2< chain2e >( in ) && r;
+      r = e2< chain4 >( in ) && r;
 #endif
       return r;
    }
